@@ -276,6 +276,9 @@ def conc_part(ctx, quick, binp=None):
     if err:
         ctx.report({"unchecked": "schedule replay run", "detail": err}, {"kind": "harness"}, failing_input=False)
         return
+    for j in jsons:
+        if j.get("sched") is None:          # Go writes an empty schedule (a nil slice) as null
+            j["sched"] = []
     if final:
         bad, nt, err = ctx.judge_cases(L.HEADER, "sc_case", "sc_judge", terms, shard=60 if quick else 400,
                                        tag="conc")
